@@ -148,9 +148,13 @@ def lockUpdateMetadata  : Unit :=
 def unlockUpdateMetadata  : Unit :=
   ()
 
--- fun lockCachedPartitions: NOT TRANSLATED: no statement starting with "client.lock.RLock()" in (*client).cachedPartitions
+/-- generated from client.go (*client).cachedPartitions (fragment starting at `client.lock.RLock()`) -/
+def lockCachedPartitions  : Unit :=
+  ()
 
--- fun unlockCachedPartitions: NOT TRANSLATED: no statement starting with "defer client.lock.RUnlock()" in (*client).cachedPartitions
+/-- generated from client.go (*client).cachedPartitions (fragment starting at `defer client.lock.RUnlock()`) -/
+def unlockCachedPartitions  : Unit :=
+  ()
 
 /-- generated from client.go (*client).cachedMetadata (fragment starting at `client.lock.RLock()`) -/
 def lockCachedMetadata  : Unit :=
